@@ -10,15 +10,16 @@ PROP = "C07"
 
 def workload(tier: str, seed: int) -> tuple[list[dict], dict]:
     if tier == "quick":
-        want = {"corpus": 1, "core-exh": 100000, "core-rand": 300, "edge": 40}
+        want = {"corpus": 1, "core-exh": 100000, "core-rand": 300, "edge": 40, "start-block": 40}
         ks = (2,)
     else:
-        want = {"corpus": 1, "core-exh": 100000, "core-rand": 4000, "edge": 400}
+        want = {"corpus": 1, "core-exh": 100000, "core-rand": 4000, "edge": 400,
+                "start-block": 600}
         ks = (2, 3)
     defs = [d for d in lcase.definitions(tier, seed + 3000, want)
             if puml.has_kind(d["ast"], ("loop",))]
     if tier == "quick":
-        defs = defs[:170]
+        defs = defs[:170] + [d for d in defs[170:] if d["kind"] == "start-block"]
     cases, stats = lcase.s1_cases(defs, seed, k_list=ks, schedules=1, check_extra=False,
                                   watch_loops=True)
     c2, st2 = lcase.s2_cases(defs, seed, per_def=1, watch_loops=True)
@@ -31,7 +32,8 @@ def main(tier: str, seed: int) -> int:
     chk = core.Check(
         PROP, tier, seed,
         rule="every definition of the learner workload that contains a loop (corpus loop cases, "
-             "F_core, F_edge; nested, with breaks, with forks inside); the real pipeline prefix "
+             "F_core, F_edge; nested, with breaks, with forks inside; plus - beyond F - fork "
+             "branches inside loops that start directly with a block); the real pipeline prefix "
              "ingestion -> create_graph_from_events -> detect_loops runs inside pv_to_puml_string "
              "and the graph returned by the top-level detect_loops is walked recursively. "
              "distinct = distinct (definition, stratum, k, size); all cases contain a loop")
